@@ -394,6 +394,29 @@ def check_trap_boundary_off(ctx, case, grid_off, pts_off, w_off, touch_lo, touch
         e[0] == q and abs(e[1] - ww) <= 1e-14 * abs(e[1]) for e, q, ww in zip(exp, pts_off, w_off))
     wc = "trapezoidal-bndoff-level0-one-sided-midpoint" if one_sided0 else "trapezoidal-bndoff-drop"
     ctx.check("B.trap.boundary_off", ok1 and ok2, site, wc, msg or "tensor points/weights differ from boundary-on minus boundary points")
+    # history: the boundary flags of ONE grid object are switched (Grid.set_boundaries, as the error estimation of the extend-split strategy does) between
+    # two set-ups of the same sub-box and level vector: the second set-up must be that of a fresh grid with the new flags, and switching back restores the first
+    if not one_sided0:
+        hist = {}
+        with ctx.guard("B.history.idempotent", site, "trapezoidal-flag-switch-raises"):
+            with quiet():
+                first = [(np.array(gon.coordinate_array[i], dtype=float), np.array(gon.weights[i], dtype=float), int(gon.numPoints[i])) for i in range(d)]
+                gon.set_boundaries([False] * d)
+                gon.setCurrentArea(list(start), list(end), list(levelvec))
+                off = [(np.array(gon.coordinate_array[i], dtype=float), np.array(gon.weights[i], dtype=float), int(gon.numPoints[i])) for i in range(d)]
+                gon.set_boundaries([True] * d)
+                gon.setCurrentArea(list(start), list(end), list(levelvec))
+                back = [(np.array(gon.coordinate_array[i], dtype=float), np.array(gon.weights[i], dtype=float), int(gon.numPoints[i])) for i in range(d)]
+                hist["ok"] = True
+        if hist.get("ok"):
+            problems = []
+            for i in range(d):
+                c_ref, w_ref = np.asarray(grid_off.coordinate_array[i], dtype=float), np.asarray(grid_off.weights[i], dtype=float)
+                if not (len(off[i][0]) == len(c_ref) == off[i][2] and np.array_equal(off[i][0], c_ref) and len(off[i][1]) == len(w_ref) and np.allclose(off[i][1], w_ref, rtol=1e-14, atol=0)):
+                    problems.append("dim %d after switching the boundary points off: %d points announced, coords %s weights %s; a fresh grid gives coords %s weights %s" % (i, off[i][2], off[i][0], off[i][1], c_ref, w_ref))
+                if not (np.array_equal(back[i][0], first[i][0]) and np.array_equal(back[i][1], first[i][1]) and back[i][2] == first[i][2]):
+                    problems.append("dim %d after switching them on again: coords %s weights %s, at first %s %s" % (i, back[i][0], back[i][1], first[i][0], first[i][1]))
+            ctx.check("B.history.idempotent", not problems, site, "trapezoidal-flag-switch-same-box", "; ".join(problems)[:900])
 
 
 # ------------------------------------------------------------------------------------------- enumeration
